@@ -78,8 +78,8 @@ def load_known(pid):
 # ---------------------------------------------------------------------------------------------
 # property table.  sim: list of (family or None, weight); cases = per shard.
 PROPS = {
-    'C01': dict(num=1, sim=[(None, 1)], quick=400000, thorough=6000000, flavours_thorough=['gcc_new', 'c11', 'cpp11'],
-                rule='a case is one decoded (program, schedule, clock, semaphore-flavour) tuple; non-trivial = at least one acquisition went through a slow path (a thread blocked on its semaphore or a CAS on the mutex word failed); distinct = distinct (program hash, realized trace hash)'),
+    'C01': dict(num=1, sim=[(None, 3), ('STARVE', 1)], quick=400000, thorough=6000000, flavours_thorough=['gcc_new', 'c11', 'cpp11'],
+                rule='a case is one decoded (program, schedule, clock, semaphore-flavour) tuple over LOCK / MON programs and STARVE programs (a victim woken up to 30+ times against bargers doing up to 200 rounds); non-trivial = at least one acquisition went through a slow path (a thread blocked on its semaphore or a CAS on the mutex word failed); distinct = distinct (program hash, realized trace hash)'),
     'C03': dict(num=3, sim=[(None, 1)], quick=250000, thorough=4000000, flavours_quick=['gcc_new', 'c11', 'cpp11'], flavours_thorough=['gcc_new', 'c11', 'cpp11'],
                 rule='programs of the MON/LOCK/ONCE/NOTE/CTR/WAITN families with client data attached to every hand-off, all three atomic flavours; oracle = vector-clock race detector crediting only declared memory orders; non-trivial = the execution contains at least one plain access that conflicts with an earlier access of another thread and is ordered only through nsync atomics; distinct = distinct (program hash, realized trace hash)'),
     'C04': dict(num=4, sim=[('MON', 1)], quick=400000, thorough=6000000, flavours_thorough=['gcc_new', 'c11', 'cpp11'],
